@@ -15,7 +15,7 @@ func init() {
 		Level: "exploration",
 		Rule: "one run = one node with a sink (zero-size symbol or MSINK menu) with MNEXT/MPREV, generated rows (lengths around the per-page capacity, empty rows, trailing empty rows, single row, 0 rows, a row longer than a page), output size, labels, separator, non-sink values and ordinary menu; a client walks 'next' from index 0 until it is no longer offered, sends 'next' once more, walks back with 'previous' and sends 'previous' once more - every page request is a separate engine request with a restart in between (persisted) or on one long-lived engine; " +
 			"non-trivial = the walk covered at least 2 pages; distinct = distinct (rows per page) partitions",
-		Runs:       map[string]int{"quick": 30000, "thorough": 1000000},
+		Runs:       map[string]int{"quick": 110000, "thorough": 3000000},
 		MaxSeconds: map[string]int{"quick": 40, "thorough": 900},
 		Run:        runC02,
 		Assumptions: []string{
@@ -183,13 +183,13 @@ func runC02(c *core.Ctx) *core.Outcome {
 	staticLen := len(us.Out) - len(allRows)
 	t.Begin("size")
 	var size int
-	switch t.Weighted(6, 2, 1) {
+	switch t.Weighted(5, 2, 3) {
 	case 0:
 		size = staticLen + t.Range(8, 70)
 	case 1:
 		size = len(us.Out) + t.Range(0, 8) - 4
 	case 2:
-		size = staticLen + t.Range(0, 12)
+		size = staticLen + t.Range(0, 24)
 	}
 	if size < 1 {
 		size = 1
@@ -333,8 +333,8 @@ func runC02(c *core.Ctx) *core.Outcome {
 	o.Counts["requests"]++
 	o.Faults["client_browse_oob"]++
 	if pst.Panic != "" {
-		o.Probes["foreign_panic"]++
-		return finish(o, w, wu)
+		// asking for a page past the end must be reported as an error
+		return fail("page-past-the-end-panics", step, "'next' on the last page (%d) made the library panic in %s: %s", len(pages)-1, pst.PanicAt, pst.Panic)
 	}
 	if pst.ExecErr == "" && pst.FlushErr == "" {
 		if pg := app.ParsePage(pst.Out); pg.OK && pg.Node == "root" {
